@@ -258,7 +258,7 @@ class PristineRun:
     def __init__(self, scn, result):
         self.scn = scn
         self.log = result["live"]["log"]
-        self.records = [(None, o) for _, o in result["live"]["records"]]
+        self.records = [({"id": sid, "k": "?"}, o) for sid, o in result["live"]["records"]]
         self.sigs, self.trans = [], []
         self.violations = []
         self.gave_up = result["gave_up"]
@@ -295,7 +295,8 @@ def execute(scn, cf=None):
             viols.append(engine.Violation(
                 "C09", "differs-from-pristine-process", sid,
                 f"step {sid} {st['k']} {engine._step_args(st)}: after this scenario's history {engine._short(out)} "
-                f"vs fresh copies in a process that executed nothing else {engine._short(ref)} ({why})"))
+                f"vs fresh copies in a process that executed nothing else {engine._short(ref)} ({why})",
+                f4_probe={"kind": "step", "step": sid, "ref": engine.outcome_str(ref)}))
             break
     run.violations = viols
     return run, viols
